@@ -41,7 +41,7 @@ class Harness:
     setup   module-level python (helper defs) placed before body
     """
 
-    def __init__(self, hid, params, pre, body, mode="real", timeout=30, bounds="", setup="", tree=""):
+    def __init__(self, hid, params, pre, body, mode="real", timeout=30, bounds="", setup="", tree="", special=None):
         self.hid = hid
         self.params = params
         self.pre = pre or "True"
@@ -51,6 +51,7 @@ class Harness:
         self.bounds = bounds
         self.setup = textwrap.dedent(setup).strip("\n")
         self.tree = tree
+        self.special = special  # regex over argument names that also range over nan/+-inf (real mode)
 
     def source(self):
         names = ", ".join(n for n, _ in self.params)
@@ -143,9 +144,11 @@ def decide(h, workdir, prop):
         "tree": h.tree,
         "pre": h.pre,
         "timeout_s": h.timeout,
+        "nonfinite_args": h.special or "",
     }
     env = dict(os.environ)
     env["PYTHONDONTWRITEBYTECODE"] = "1"
+    env["VERIF_SPECIAL_RE"] = h.special or ""
     env["PYTHONHASHSEED"] = str(int(os.environ.get("VERIF_SEED", "0")) % 4294967295)
     try:
         p = subprocess.run(
@@ -160,7 +163,7 @@ def decide(h, workdir, prop):
         res.update(status="UNKNOWN", detail="wall timeout", wall_s=round(time.time() - t0, 2))
         return res
     if not os.path.exists(out):
-        res.update(status="ERROR", detail="engine crashed: " + err, wall_s=round(time.time() - t0, 2))
+        res.update(status="ERROR", detail="engine crashed: " + err[-900:], wall_s=round(time.time() - t0, 2))
         return res
     r = json.load(open(out))
     rh, rr = r["h"], r["reach"]
@@ -317,6 +320,7 @@ def run_check(prop, tier, only=None, keep=False, extra=None):
                 "id",
                 "status",
                 "mode",
+                "nonfinite_args",
                 "tree",
                 "bounds",
                 "pre",
@@ -381,7 +385,7 @@ def run_check(prop, tier, only=None, keep=False, extra=None):
     )
     for r in results:
         if r["status"] in ("ERROR", "VACUOUS", "SPURIOUS"):
-            print("  %s %s: %s" % (r["status"], r["id"], str(r.get("detail", ""))[:400]))
+            print("  %s %s: %s" % (r["status"], r["id"], str(r.get("detail", ""))[-700:]))
     for k, r in known_hits:
         print("KNOWN-FINDING: property=%s %s [%s %s]" % (prop, k["what"], r["id"], r.get("label", "")))
     for r in violations:
